@@ -22,6 +22,7 @@ iterations executed; traces = runs whose evaluation sequence was checked against
 import contextlib
 import copy
 import io
+import os
 import re
 
 import numpy as np
@@ -330,6 +331,8 @@ def long_lattice(tier, seed):
         starts = [(0, 0.1), (1, 0.02), (2, 0.1), (3, 0.02)]
         configs = [("AM1", "adaptive"), ("PM3", "adaptive"), ("AM1", "pulay"), ("PM3", "pulay")]
         cap = 60
+    if os.environ.get("C20_DEV"):  # development aid (reported as capped): a small slice of the quick lattice
+        systems, starts, configs = ["H2O", "CH4", "CH4,H2O+far"], [(0, 0.1)], [("AM1", "adaptive")]
     out = []
     for s in systems:
         for st in starts:
@@ -413,6 +416,9 @@ def describe(c, prob, state):
 
 def run(chk, tier, seed):
     long_cases, cap_long = long_lattice(tier, seed)
+    if os.environ.get("C20_DEV"):
+        long_cases = [c for c in long_cases if c["alpha"] >= 5e-3]
+        chk.cap("C20_DEV")
     res = pmap(long_task, long_cases, chunk=1, timeout=1800, progress="C20 long runs")
     states = set()
     planned = len(long_cases)
